@@ -283,6 +283,13 @@ def r_heap_guard(ctx):
                 if cnt[0] == 'v' and isinstance(cnt[2], tuple) and any(
                         f.defs[d].kind == 'aug' and isinstance(f.defs[d].extra, ast.Mult) for d in cnt[2]):
                     ok = True
+        if not ok:
+            # is the loop at least under *some* comparison with heap_size?  then the count is merely in another form
+            some = any(any(x == ('v', 'heap_size', 'P') for x in walk_term(a)) for a, p_ in ctx.conds(f, nd))
+            if some:
+                run.undecided('R-PROG', f, 'candidate-product:heap-guard', nd.lineno,
+                              'the product loop is under a heap_size comparison whose counted quantity is not recognised')
+                continue
         run.check(ok, 'R-PROG', f, 'candidate-product:heap-guard', nd.lineno,
                   'the product loop is only reached when the product count <= heap_size',
                   'the loop over product(*candidate sets) is not dominated by the early return on count > heap_size: '
@@ -699,7 +706,7 @@ def r_ret(ctx):
     f = ctx.p.func('dsw.spiderweb.repair_dna')
     vt = ('v', 'vt_check', 'P')
 
-    def passes_check(nd, value):
+    def passes_check(nd, value, extra=()):
         """conds at nd imply: vt_check is None, or vt_check == set_vt(value, len(vt_check))"""
         def one(atom, pol):
             if atom[0] == 'cmp' and atom[1] == 'is' and atom[2] == vt and atom[3] == ('c', None) and pol:
@@ -713,15 +720,25 @@ def r_ret(ctx):
                                 call_arg(b, 1, 'vt_length') == ('call', ('g', 'builtins.len'), (vt,), ()):
                             return 'check comparison holds for this value'
             return None
-        for atom, pol in ctx.conds(f, nd):
+        def disj(parts):
+            hs = []
+            for x, xp in parts:
+                fl = flatten_cond(x, xp)
+                hs.append(one(fl[0][0], fl[0][1]) if len(fl) == 1 else None)
+            return ' or '.join(sorted(set(hs))) if hs and all(hs) else None
+        for atom, pol in list(ctx.conds(f, nd)) + list(extra):
             h = one(atom, pol)
             if h:
                 return h
-            # (no check supplied) or (check matches), taken as a whole
+            # (no check supplied) or (check matches), taken as a whole; also its De Morgan form not (supplied and not matches)
             if atom[0] == 'bool' and atom[1] == 'or' and pol:
-                hs = [one(x, True) for x in atom[2:]]
-                if all(hs):
-                    return ' or '.join(sorted(set(hs)))
+                h = disj([(x, True) for x in atom[2:]])
+                if h:
+                    return h
+            if atom[0] == 'bool' and atom[1] == 'and' and not pol:
+                h = disj([(x, False) for x in atom[2:]])
+                if h:
+                    return h
         return None
     n = 0
     for nd in f.stmts(ast.Return):
@@ -733,6 +750,22 @@ def r_ret(ctx):
                        inputs='every call')
             continue
         L, stats = t[1], t[2]
+        if L[0] == 'ifexp' and L[2][0] == 'list' and L[3][0] == 'list':
+            # ([] if rejected else [x]): each arm is judged under its side of the condition
+            okarms = True
+            for arm, pol_ in ((L[2], True), (L[3], False)):
+                if len(arm) == 1:
+                    continue
+                if len(arm) == 2:
+                    how = passes_check(nd, arm[1], extra=flatten_cond(L[1], pol_))
+                    okarms = okarms and bool(how)
+                else:
+                    okarms = False
+            run.check(okarms, 'R-RET', f, role + ':candidate-check-consistent', nd.lineno,
+                      'conditional single candidate: returned only when no check is supplied or the check matches',
+                      'the single candidate is returned on a side of %s where a supplied check was not compared' % show(L[1])[:80],
+                      inputs='strands with a wrong check and no repair candidates')
+            continue
         run.check(stats[0] == 'tuple' and len(stats) == 5, 'R-RET', f, role + ':statistics', nd.lineno, '4-tuple of statistics',
                   'the statistics component is %s, not a 4-tuple' % show(stats)[:80], nontrivial=False, inputs='every call')
         if L[0] == 'list':
@@ -755,6 +788,16 @@ def r_ret(ctx):
             src = src[2][0]
             while is_call(src, 'builtins.list', 'builtins.set', 'builtins.tuple') and len(src[2]) == 1:
                 src = src[2][0]
+        if not sorted_ok:
+            s0 = src
+            while is_call(s0, 'builtins.list', 'builtins.tuple') and len(s0[2]) == 1:
+                s0 = s0[2][0]
+            set_like = s0[0] == 'v' and any(d.name == s0[1] and d.kind == 'assign' and
+                                            TermBuilder(f, d.node).def_term(d.id) == ('call', ('g', 'builtins.set'), (), ())
+                                            for d in f.defs)
+            if not set_like:
+                run.undecided('R-RET', f, role + ':sorted', nd.lineno, 'returned collection %s is not in a recognised form' % show(L)[:60])
+                continue
         run.check(sorted_ok, 'R-RET', f, role + ':sorted', nd.lineno, 'candidates pass through sorted()',
                   'the candidate collection %s is returned without sorted(): the order of a set of str depends on hash '
                   'randomisation, i.e. on the process' % show(L)[:80], inputs='two or more candidates')
@@ -887,6 +930,10 @@ def r_recomb(ctx):
             if e.kind == 'augstore' and e.extra[0] == 'sub' and e.extra[2] == ('c', -1):
                 seg = e.name
                 ok1 = e.term == ('sub', strand, cursor)
+    if seg is None:
+        run.undecided('R-RECOMB', f, 'walk-arm:segment-grows-by-symbol-read', head.lineno,
+                      'no `segments[-1] += symbol` on the walk arm: the segments are kept in another form')
+        return
     run.check(ok1, 'R-RECOMB', f, 'walk-arm:segment-grows-by-symbol-read', head.lineno,
               'segments[-1] += strand[cursor]', 'the walk arm does not append exactly the symbol it just followed to the current segment',
               inputs='every strand (a clean strand is not returned unchanged)')
